@@ -86,6 +86,21 @@ func solveObligation(o *Obligation, dir string, timeoutS int, all bool) {
 	if o.Status == "error" {
 		return
 	}
+	if o.Kind == "consistency" {
+		// short budget: these are guards, not proofs; only a definite "unsat after, sat before" fails
+		ctx := context.Background()
+		r := runSolver(ctx, solvers[0], o.Query, 2)
+		o.Solver, o.Seconds = r.solver, r.secs
+		o.Status = "discharged"
+		if r.verdict == "unsat" {
+			b := runSolver(ctx, solvers[0], o.Before, 5)
+			if b.verdict == "sat" {
+				o.Status = "refuted"
+				o.Output = "vacuous: applying this assumed contract makes the path contradictory (satisfiable before, unsatisfiable after)"
+			}
+		}
+		return
+	}
 	file := o.Query
 	var results []solveResult
 	var winner *solveResult
@@ -231,6 +246,15 @@ func prepare(o *Obligation, dir string) {
 		return
 	}
 	hyps := o.ctx.hyps[:o.nHyps]
+	if o.Kind == "consistency" {
+		q, _ := emitQuery(hyps, o.Goal, false)
+		o.Query = filepath.Join(dir, sanitizeFile(o.ID)+".smt2")
+		os.WriteFile(o.Query, []byte("; consistency after "+o.ID+"\n"+q), 0o644)
+		qb, _ := emitQuery(o.ctx.hyps[:o.nBefore], o.Goal, false)
+		o.Before = filepath.Join(dir, sanitizeFile(o.ID)+".before.smt2")
+		os.WriteFile(o.Before, []byte("; consistency before "+o.ID+"\n"+qb), 0o644)
+		return
+	}
 	q, _ := emitQuery(hyps, o.Goal, true)
 	file := filepath.Join(dir, sanitizeFile(o.ID)+".smt2")
 	if len(q) > 8<<20 {
